@@ -226,6 +226,24 @@ func (m *Machine) verifrt(name string, args []Value, g *Term, site ssa.Instructi
 	case "LockHeld":
 		p, _ := unwrapIface(args[0])
 		return m.lockHeld(p.(*PtrV))
+	case "LockAcquired":
+		// ghost: has the mutex been acquired (read or write) at least once since the run began /
+		// since the last ResetLockAcquired
+		p, _ := unwrapIface(args[0])
+		var res *Term = TS.False
+		for _, a := range p.(*PtrV).Alts {
+			key := fmt.Sprintf("lock#%d%v", a.Obj.id, a.Path)
+			if t, ok := m.ghost[key+"acq"].(*Term); ok {
+				res = Or(res, And(a.G, t))
+			}
+		}
+		return res
+	case "ResetLockAcquired":
+		p, _ := unwrapIface(args[0])
+		for _, a := range p.(*PtrV).Alts {
+			delete(m.ghost, fmt.Sprintf("lock#%d%v", a.Obj.id, a.Path)+"acq")
+		}
+		return nil
 	case "Finish", "Reset":
 		return nil
 	}
@@ -499,8 +517,186 @@ func jsonUnmarshal(m *Machine, args []Value, g *Term, site ssa.Instruction) Valu
 			}
 		}
 	}
+	if _, isStruct := et.Underlying().(*types.Struct); isStruct {
+		if cur := m.load(p, g, site); cur != nil && !syntacticZero(cur) {
+			// decoding into a struct that already holds data (a reused target): keys the document
+			// omits (omitempty) keep their old value, non-nil pointers and existing slice elements
+			// are decoded INTO, as encoding/json does
+			m.stubsUsed["json.Unmarshal into a non-zero struct merges into the existing value"]++
+			m.store(p, m.jsonInto(cur, src, et, false, g, site), g, site)
+			return errNil()
+		}
+	}
 	m.store(p, m.jsonCopy(src, et, false), g, site)
 	return errNil()
+}
+
+// syntacticZero: the value is visibly the zero value of its type (fresh target).
+func syntacticZero(v Value) bool {
+	switch x := v.(type) {
+	case *Term:
+		return x.IsConst() && x.val == 0 || x.IsFalse()
+	case *StructV:
+		for _, f := range x.F {
+			if f != nil && !syntacticZero(f) {
+				return false
+			}
+		}
+		return true
+	case *ArrayV:
+		for _, e := range x.E {
+			if e != nil && !syntacticZero(e) {
+				return false
+			}
+		}
+		return true
+	case *PtrV:
+		return len(x.Alts) == 0
+	case *SliceV:
+		return len(x.Alts) == 0
+	case *MapV:
+		return len(x.Alts) == 0
+	case *IfaceV:
+		return len(x.Alts) == 0
+	case *FuncV:
+		return len(x.Alts) == 0
+	case *ChanV:
+		return len(x.Alts) == 0
+	case nil:
+		return true
+	}
+	return false
+}
+
+// jsonEmpty: the condition under which encoding/json's omitempty drops the value.
+func jsonEmpty(v Value, t types.Type) *Term {
+	switch t.Underlying().(type) {
+	case *types.Basic:
+		x := v.(*Term)
+		if x.sort.W == 0 {
+			return Not(x)
+		}
+		return Eq(x, Const(x.sort.W, 0))
+	case *types.Pointer, *types.Interface:
+		return isNilValue(v)
+	case *types.Slice:
+		x := v.(*SliceV)
+		return Or(isNilValue(x), Eq(x.Len, Const(64, 0)))
+	case *types.Map:
+		return isNilValue(v) // (an empty non-nil map is dropped too; the maps here are never reused targets)
+	}
+	return TS.False
+}
+
+// jsonInto decodes the document value src (of type t) into a target that currently holds dst.
+func (m *Machine) jsonInto(dst, src Value, t types.Type, omitempty bool, g *Term, site ssa.Instruction) Value {
+	if dst == nil || syntacticZero(dst) {
+		v := m.jsonCopy(src, t, omitempty)
+		return v
+	}
+	keepIfOmitted := func(decoded Value) Value {
+		if !omitempty {
+			return decoded
+		}
+		e := jsonEmpty(src, t)
+		if e.IsFalse() {
+			return decoded
+		}
+		return mergeValue(e, dst, decoded)
+	}
+	switch u := t.Underlying().(type) {
+	case *types.Basic:
+		return keepIfOmitted(src)
+	case *types.Struct:
+		d, x := dst.(*StructV), src.(*StructV)
+		r := &StructV{F: make([]Value, len(x.F))}
+		for i := range x.F {
+			skip, oe := jsonTag(u, i)
+			if skip {
+				r.F[i] = d.F[i]
+				continue
+			}
+			r.F[i] = m.jsonInto(d.F[i], x.F[i], u.Field(i).Type(), oe, g, site)
+		}
+		return r
+	case *types.Pointer:
+		dp, sp := dst.(*PtrV), src.(*PtrV)
+		if len(sp.Alts) == 0 {
+			// null: the pointer becomes nil (kept when omitempty dropped the key)
+			if omitempty {
+				return dst
+			}
+			return &PtrV{}
+		}
+		var doc Value = m.zero(u.Elem())
+		for i := len(sp.Alts) - 1; i >= 0; i-- {
+			doc = mergeValue(sp.Alts[i].G, getPath(sp.Alts[i].Obj.val, sp.Alts[i].Path), doc)
+		}
+		srcNonNil := Not(isNilPtr(sp))
+		dstNonNil := Not(isNilPtr(dp))
+		// existing pointees are decoded into, in place
+		for _, a := range dp.Alts {
+			one := &PtrV{Alts: []PtrAlt{{TS.True, a.Obj, a.Path}}}
+			cur := getPath(a.Obj.val, a.Path)
+			m.store(one, m.jsonInto(cur, doc, u.Elem(), false, And(g, a.G, srcNonNil), site), And(g, a.G, srcNonNil), site)
+		}
+		fresh := m.jsonCopy(src, t, false)
+		var onNull Value = &PtrV{}
+		if omitempty {
+			onNull = dst
+		}
+		return mergeValue(srcNonNil, mergeValue(dstNonNil, dst, fresh), onNull)
+	case *types.Slice:
+		dsl, ssl := dst.(*SliceV), src.(*SliceV)
+		if len(ssl.Alts) == 0 {
+			if omitempty {
+				return dst
+			}
+			return &SliceV{Len: Const(64, 0)}
+		}
+		n := m.sliceCapMax(ssl)
+		if l, ok := concreteInt(ssl.Len); ok {
+			n = int(l)
+		}
+		dcap := m.sliceCapMax(dsl)
+		arr := &ArrayV{E: make([]Value, n)}
+		for i := 0; i < n; i++ {
+			e := m.sliceElem(ssl, i)
+			if e == nil {
+				arr.E[i] = m.zero(u.Elem())
+				continue
+			}
+			// elements inside the old capacity are decoded into (their pointees are reused)
+			var old Value
+			if i < dcap {
+				old = m.sliceElem(dsl, i)
+			}
+			arr.E[i] = m.jsonInto(old, e, u.Elem(), false, And(g, Slt(ConstI(64, int64(i)), ssl.Len)), site)
+		}
+		o := m.newObject(arr, u.Elem(), "json")
+		decoded := Value(&SliceV{Alts: []SliceAlt{{Not(isNilValue(ssl)), o, 0, 0}}, Len: ssl.Len})
+		if omitempty {
+			return keepIfOmitted(decoded)
+		}
+		return decoded
+	case *types.Map:
+		if dm, ok := dst.(*MapV); ok && len(dm.Alts) > 0 {
+			for _, a := range dm.Alts {
+				if len(a.Obj.val.(*MapContent).Entries) > 0 {
+					panic(notEncoded("json.Unmarshal into a non-empty map (existing entries are kept by encoding/json)"))
+				}
+			}
+		}
+		return keepIfOmitted(m.jsonCopy(src, t, false))
+	case *types.Array:
+		d, x := dst.(*ArrayV), src.(*ArrayV)
+		r := &ArrayV{E: make([]Value, len(x.E))}
+		for i := range x.E {
+			r.E[i] = m.jsonInto(d.E[i], x.E[i], u.Elem(), false, g, site)
+		}
+		return r
+	}
+	return keepIfOmitted(m.jsonCopy(src, t, omitempty))
 }
 
 func jsonTag(st *types.Struct, i int) (skip, omitempty bool) {
